@@ -551,7 +551,7 @@ var bigOps = map[string]int{"mesh.Rotate": 0, "quat.RotateArray": 0, "mesh.Trans
 
 func doBig(d bigDesc) {
 	op, known := bigOps[d.Entry]
-	if !known || d.N < 1 {
+	if !known || d.N < 0 || (d.N == 0 && strings.HasPrefix(d.Entry, "mesh.")) { // a mesh needs a Position attribute
 		return
 	}
 	pr := hx.NewRng(d.PSeed)
@@ -616,6 +616,9 @@ func doBig(d bigDesc) {
 	}
 	// samples evaluated in Coq: ends, middle, the start of a possible remainder chunk, the first mismatch
 	idx := []int{0, d.N / 2, d.N - 2, d.N - 1}
+	if d.N <= 6 {
+		idx = []int{0, 1, 2, 3, 4, 5}
+	}
 	if d.Workers > 0 && d.N%d.Workers != 0 {
 		idx = append(idx, d.N-d.N%d.Workers)
 	}
@@ -636,9 +639,10 @@ func doBig(d bigDesc) {
 			items = append(items, "("+qlist(fromV(in[i]))+","+qlist(o)+")")
 		}
 	}
+	entry := map[string]int{"trs.TransformArray": 1, "trs.TransformInPlace": 2, "quat.RotateArray": 3}[d.Entry]
 	coq := ""
 	if ok {
-		coq = fmt.Sprintf("CBig 0%%Q %d %d %d %s %s %s %s [%s]", op, d.N, mism, hx.CoqBool(len(out) == d.N),
+		coq = fmt.Sprintf("CBig 0%%Q %d %d %d %d %s %s %s %s [%s]", op, entry, d.N, mism, hx.CoqBool(len(out) == d.N),
 			qlist(d.P), qlist(d.S), qlist(d.Q), strings.Join(items, ";"))
 	}
 	run.Count("big:" + d.Entry)
